@@ -290,13 +290,15 @@ def judge_in_clip(ctx, gspec, cs, ce, m):
         ctx.violate("is_in_clip:spurious_rejection", "is_in_clip:spurious_rejection", observed=v, expected="bool", spec=spec)
 
 
-def judge_geoms(ctx, axis, s1, s2, a, r):
+def judge_geoms(ctx, axis, s1, s2, a, r, same_object=False):
     from soundevent.geometry import operations as G
 
     fn = G.have_temporal_overlap if axis == "temporal" else G.have_frequency_overlap
     g1, g2 = geoms.build(s1), geoms.build(s2)
     if ctx.evaluations % 4 == 0:
         g1, g2 = geoms.build_derived(s1, ctx.rng), geoms.build_derived(s2, ctx.rng)
+    if same_object:
+        g2 = g1                 # a geometry compared with itself (the very same object)
     kw = {}
     if a is not None:
         kw["min_absolute_overlap"] = a
@@ -507,6 +509,22 @@ def run(ctx):
                          nontrivial=s1 != s2)
                 judge_geoms(ctx, axis, s1, s2, a, r)
 
+    # ---- a geometry against itself / an equal copy: the predicate is the one on its own extent (thresholds larger than
+    # the extent, invalid threshold combinations included)
+    for t1 in geoms.TYPES:
+        for _ in range(ctx.scale(6, 30)):
+            s1 = geoms.random_geom(rng, t1, rng.choice(["dyadic", "dyadic", "realistic"]))
+            bb = geoms.ref_bounds(s1)
+            for axis in ("temporal", "frequency"):
+                if axis == "frequency" and t1 in geoms.TIME_ONLY:
+                    continue
+                ext = (bb[2] - bb[0]) if axis == "temporal" else (bb[3] - bb[1])
+                for a, r in [(None, None), (ext / 2, None), (ext, None), (ext * 2 + 1.0, None), (ext + 2.0 ** -20, None), (None, 0.5), (None, 1.0), (0.5, 0.5), (None, 1.5), (None, -0.25)]:
+                    same = rng.random() < 0.5
+                    ctx.case((axis, t1, t1, "itself" if same else "equal_copy", "abs" if a is not None and r is None else "rel" if r is not None and a is None else "none" if a is None else "both"),
+                             {"kind": axis, "g1": s1, "g2": s1, "abs": a, "rel": r, "same_object": same}, nontrivial=False)
+                    judge_geoms(ctx, axis, s1, s1, a, r, same_object=same)
+
     # ---- is_in_clip: dyadic grid of placements + random
     qs = [k / 4 for k in range(0, 25)]
     for typ in geoms.TYPES:
@@ -551,6 +569,8 @@ def replay(ctx, w):
         judge_intervals(ctx, tuple(s["i1"]), tuple(s["i2"]), s["abs"], s["rel"])
     elif k in ("temporal", "frequency"):
         judge_geoms(ctx, k, s["g1"], s["g2"], s["abs"], s["rel"])
+        if s["g1"] == s["g2"]:
+            judge_geoms(ctx, k, s["g1"], s["g2"], s["abs"], s["rel"], same_object=True)
     elif k == "in_clip":
         for _ in range(5):          # once per kind of recording the clip may belong to (see _mk_clip)
             judge_in_clip(ctx, s["g"], s["clip"][0], s["clip"][1], s["m"])
